@@ -30,4 +30,10 @@ def dFam : Doc := ⟨[⟨s "/a/{x}", [get, post]⟩, ⟨s "/a/b", [get]⟩, ⟨s
   [⟨s "https://{env}.example.com:{port}/v1/", [⟨s "env", s "prod", [s "prod", s "dev"]⟩, ⟨s "port", s "8443", []⟩]⟩]⟩
 def rFam (m p : String) : Req := ⟨s m, true, s "https", s "dev.example.com:8443", s p⟩
 
+/-- legacy first-server commitment: two servers match the URL, only the second one leads to a template -/
+def dFirst : Doc := ⟨[⟨s "/b", [s "PUT"]⟩],
+  [⟨s "{scheme}://api.test", [⟨s "scheme", s "https", [s "https", s "http"]⟩]⟩,
+   ⟨s "https://api.test/{ver}", [⟨s "ver", s "v1", [s "v1", s "v2"]⟩]⟩]⟩
+def rFirst : Req := ⟨s "PUT", true, s "https", s "api.test", s "/v2/b"⟩
+
 end KinModel.Router.W
